@@ -31,6 +31,9 @@ type LoadConfig struct {
 	GOOS    string
 	GOARCH  string
 	Overlay map[string][]byte
+	// NoInline: analyse the tree as written (do not inline helpers that the
+	// reference tree does not have).
+	NoInline bool
 }
 
 type CallSite struct {
@@ -69,6 +72,8 @@ type Prog struct {
 	cgCHA    *callgraph.Graph
 	pi       *provIndex
 	consOnly map[FieldKey]bool
+	// InlineNotes: what the helper-inlining normalisation did (inline.go).
+	InlineNotes []string
 }
 
 func relPkg(path string) string {
@@ -104,14 +109,39 @@ func Load(cfg LoadConfig) (*Prog, error) {
 	if err != nil {
 		return nil, fmt.Errorf("load: %w", err)
 	}
-	var errs []string
-	packages.Visit(pkgs, nil, func(p *packages.Package) {
-		for _, e := range p.Errors {
-			errs = append(errs, e.Error())
-		}
-	})
-	if len(errs) > 0 {
+	loadErrs := func(pkgs []*packages.Package) []string {
+		var errs []string
+		packages.Visit(pkgs, nil, func(p *packages.Package) {
+			for _, e := range p.Errors {
+				errs = append(errs, e.Error())
+			}
+		})
+		return errs
+	}
+	if errs := loadErrs(pkgs); len(errs) > 0 {
 		return nil, fmt.Errorf("load: tree does not type-check: %s", strings.Join(errs, "; "))
+	}
+	// normalisation: inline helpers the reference tree does not have (inline.go)
+	var inlineNotes []string
+	if !cfg.NoInline {
+		if pl := planInlines(pkgs); !pl.empty() {
+			pc2 := *pc
+			pc2.ParseFile = pl.parseFile(cfg.Overlay)
+			pkgs2, err2 := packages.Load(&pc2, "./...")
+			switch {
+			case err2 != nil:
+				inlineNotes = append(inlineNotes, "helper inlining abandoned: "+err2.Error())
+			case len(loadErrs(pkgs2)) > 0:
+				inlineNotes = append(inlineNotes, "helper inlining abandoned (result does not type-check): "+strings.Join(loadErrs(pkgs2), "; "))
+			default:
+				pkgs = pkgs2
+				inlineNotes = append(inlineNotes, pl.Notes...)
+			}
+		} else if pl != nil {
+			for _, n := range pl.Notes {
+				inlineNotes = append(inlineNotes, n)
+			}
+		}
 	}
 	if len(pkgs) < minPackages {
 		return nil, fmt.Errorf("load: only %d packages loaded, expected at least %d", len(pkgs), minPackages)
@@ -122,6 +152,7 @@ func Load(cfg LoadConfig) (*Prog, error) {
 	if len(pkgs) > 0 {
 		p.Fset = pkgs[0].Fset
 	}
+	p.InlineNotes = inlineNotes
 	// The module must not use unsafe, cgo or linkname: otherwise the writer
 	// and call-site tables below are not exhaustive.
 	for _, pk := range pkgs {
